@@ -65,6 +65,10 @@ def gen_cases(rng, tier):
         ops += [1, 0, 2, maxc, 2, maxc, 1, 1, 2, maxc + 1]
         ops += [3, 0, 2, maxc, 2, maxc + 1]
         yield case("tok_run", [maxc], ops), ["tokens", "directed", "served", "waited"]
+    # the configured limit is the limit: exactly max_conns requests complete at once, the next one waits — small limits and limits
+    # around 2^16 (async servers are told to configure "a much higher number")
+    for m in [1, 2, 3, 7, 64, 255, 256, 257, 1000, 65535, 65536, 65537, 70000] + ([2 ** 17 + 1] if not quick else []):
+        yield case("tok_fill", [m]), ["tokens", "fill"]
     for _ in range(1500 if quick else 100000):
         maxc = rng.choice([1, 1, 2, 3, 4])
         ops = gen_ops(rng, maxc, rng.randrange(4, 60))
@@ -76,7 +80,7 @@ def nontrivial(line, tags):
 
 
 def min_classes(tier):
-    return {"directed": 30, "cancel": 16, "random": 1000, "served": 4}
+    return {"directed": 30, "cancel": 16, "random": 1000, "served": 4, "fill": 13}
 
 
 def oracle(line, impl_line):
@@ -85,6 +89,12 @@ def oracle(line, impl_line):
     if o is None or o == [[18446744073710440504]]:
         return "crashed or panicked (the harness asserts live tokens <= max_conns)"
     maxc = max(1, a[0][0])
+    if mode == "tok_fill":
+        if o[0][0] > maxc or o[0][1] == 2:
+            return "more than max_conns (%d) tokens were handed out" % maxc
+        if o[0][0] < maxc:
+            return "request %d waits although only %d of %d slots are in use and nothing is queued" % (o[0][0] + 1, o[0][0], maxc)
+        return True
     ops = a[1] if len(a) > 1 else []
     # replay the observation: which futures are pending/registered, which tokens are live
     state = {}
